@@ -582,6 +582,11 @@ func (ro *RedisOutput) sendRdb(pctx context.Context, reader ChannelReader) error
 		ro.logger.Errorf("send rdb ERROR : runId(%s), offset(%d), size(%d), error(%v)", reader.RunId(), reader.Left(), reader.Size(), errs[0])
 		return err
 	}
+	if err := pctx.Err(); err != nil {
+		// the replay was stopped from outside: the workers leave their queues on ctx.Done without
+		// reporting an error, so entries may be missing although nobody failed
+		return err
+	}
 	ro.logger.Debugf("send rdb OK : runId(%s), offset(%d), size(%d)", reader.RunId(), reader.Left(), reader.Size())
 	if ro.bisyncEnabled() {
 		ro.bisyncOffset.Store(reader.Left())
